@@ -40,7 +40,7 @@ def run(ctx):
     bl = [b for b in hier.builders() if b[0] != 'onelevel']
     combos = [(b, m) for b in bl for m in mats if not m[0].startswith('complex')]
     rng.shuffle(combos)
-    combos = combos[:6 if not ctx.thorough else 30]
+    combos = combos[:10 if not ctx.thorough else 30]
     an, af, _ = hier.air_builder()
     combos.append(((an, af, 'nonsym'), ('upwind-5x5', hier.nonsym_matrix(5))))
     # badly scaled copies (||M b|| << ||b||, initial residual of a random guess >> ||b||): tolerances must stay relative
